@@ -109,7 +109,7 @@ theorem adoptRefresh_refresh (st : HostSt) (b : Bytes) :
   · exact Or.inr rfl
 
 theorem lifeOf_pos (e : Nat) : 1 ≤ lifeOf e := by
-  unfold lifeOf defaultExpirySec; split <;> omega
+  unfold lifeOf defaultExpirySec maxExpirySec; split <;> omega  -- F41: the clamp keeps it positive
 
 /-- What an acquisition does to the state and what it returns. `scs` are the
 scopes a new token may be recorded under. -/
